@@ -1,7 +1,7 @@
 #!/bin/bash
 # run every claimed check (tier $1, default quick) sequentially; print one summary line each
 TIER=${1:-quick}
-cd /verif
+cd "$(dirname "$0")/.."
 for p in $(python3 -c "import json;print(' '.join(c['property_id'] for c in json.load(open('MANIFEST.json'))['checks']))"); do
   s=$(date +%s)
   out=$(./check $p --tier $TIER 2>&1); rc=$?
